@@ -138,7 +138,9 @@ def run_decode_case(case, prop):
     t = case["op"].split()
     if t[1] == "sweep":
         fut = PENDING.pop(case["op"], None)
-        out, msg = fut.get(timeout=600) if fut is not None else sweep_block(case["op"], prop)
+        # the per-APDU watchdog lives in sweep_block (5 s each); waiting for a busy pool is not a hang of xknx
+        signal.setitimer(signal.ITIMER_REAL, 0)
+        out, msg = fut.get(timeout=900) if fut is not None else sweep_block(case["op"], prop)
         if msg:
             SWEEP_ORACLE[case["op"]] = msg
         return out
